@@ -1161,6 +1161,25 @@ pub fn exec_op(dir: &Path, idx: usize, op: &IoOp, stats: &mut Stats, pre: Option
         rep
     };
 
+    // 0. Which comes first, the call or the in-memory rendering it is compared with? Normally the
+    // rendering (fault positions are relative to its length). But an in-memory rendering made
+    // right before the call also *primes* whatever the crate remembers from its last encode, and
+    // would hide a `to_file` that trusts such a memory too much. So fault-free PNG exports take
+    // the other order every second time: `to_file` first, `to_bytes` afterwards.
+    if pre.is_none()
+        && op.kind == Kind::Png
+        && op.plan.is_empty()
+        && op.rlimit.is_none()
+        && op.crash_at.is_none()
+        && op.cb_panic_at.is_none()
+        && op.litter.is_empty()
+        && matches!(op.pre, Pre::Absent | Pre::Removed | Pre::Other(_))
+        && matches!(op.target, Target::Scratch(_) | Target::Sub(_))
+        && digest128(&[serde_json::to_string(op).unwrap_or_default().as_bytes()])[0] % 2 == 0
+    {
+        return exec_op_call_first(dir, idx, op, stats, rep);
+    }
+
     // 1+2. the QR code, the renderer, and the in-memory rendering = the expected file content
     let computed;
     let prep: &Prepared = match pre {
@@ -1614,6 +1633,99 @@ pub fn exec_op(dir: &Path, idx: usize, op: &IoOp, stats: &mut Stats, pre: Option
             "file": rep.file,
         }));
     }
+    rep.delivered = delivered;
+    rep
+}
+
+/// A fault-free PNG export judged in the other order: the call first, the in-memory rendering it
+/// must equal afterwards (see step 0 of `exec_op`).
+fn exec_op_call_first(dir: &Path, idx: usize, op: &IoOp, stats: &mut Stats, mut rep: OpReport) -> OpReport {
+    let skip = |mut rep: OpReport, why: &str, stats: &mut Stats| {
+        stats.ops_skipped += 1;
+        stats.bump(&format!("skip:{}", why), 1);
+        rep.skipped = Some(why.to_string());
+        rep
+    };
+    let qr = match catch_unwind(|| op.qr.fresh_builder().build()) {
+        Ok(Ok(q)) => Box::new(q),
+        Ok(Err(_)) => return skip(rep, "qr_err", stats),
+        Err(_) => return skip(rep, "qr_panic", stats),
+    };
+    let b = img_builder_from(&op.setters);
+    let wd = match op.cwd % 3 {
+        0 => dir.to_path_buf(),
+        1 => dir.join("cwd-b"),
+        _ => dir.to_path_buf(),
+    };
+    let _ = std::fs::create_dir_all(&wd);
+    let _ = std::env::set_current_dir(&wd);
+    let path = resolve_path(dir, &op.target);
+    if matches!(op.target, Target::Sub(_)) {
+        let _ = std::fs::create_dir_all(dir.join("sub dir"));
+    }
+    match &op.pre {
+        Pre::Removed => {
+            let _ = std::fs::remove_file(&path);
+        }
+        Pre::Other(n) => {
+            if std::fs::symlink_metadata(&path).map(|m| m.file_type().is_symlink()).unwrap_or(false) {
+                let _ = std::fs::remove_file(&path);
+            }
+            let v: Vec<u8> = (0..*n).map(|i| b"unrelated content\n"[i % 18]).collect();
+            let _ = std::fs::write(&path, &v);
+        }
+        _ => {}
+    }
+    shim::arm(Plan::default());
+    let outcome = catch_unwind(AssertUnwindSafe(|| b.to_file(&qr, &path).map_err(|e| format!("{:?}", e))));
+    let delivered = shim::disarm();
+    // only now the in-memory rendering
+    let expected = match catch_unwind(AssertUnwindSafe(|| b.to_bytes(&qr))) {
+        Ok(Ok(e)) => e,
+        Ok(Err(_)) => return skip(rep, "render_err", stats),
+        Err(_) => return skip(rep, "render_panic", stats),
+    };
+    rep.expected_len = expected.len();
+    stats.bump("probe:call_first_then_in_memory_rendering", 1);
+    let got = std::fs::read(&path);
+    rep.file = match &got {
+        Ok(g) if *g == expected => "exact".into(),
+        Ok(g) => format!("differs(len={} expected={} first_diff={})", g.len(), expected.len(), first_diff(g, &expected)),
+        Err(e) => format!("unreadable({:?})", e.kind()),
+    };
+    match &outcome {
+        Err(p) => {
+            let msg = panic_message(p.as_ref());
+            rep.result = format!("Panic({})", msg);
+            stats.result_panic += 1;
+            rep.violation = Some(Violation { invariant: "O1_panic".into(), op_index: idx, kind: op.kind, detail: format!("to_file panicked ({}) ; target={} (call made before the in-memory rendering)", msg, op.target.class()) });
+        }
+        Ok(Ok(())) => {
+            rep.result = "Ok".into();
+            stats.result_ok += 1;
+            if rep.file != "exact" {
+                rep.violation = Some(Violation {
+                    invariant: "O2_ok_but_file_wrong".into(),
+                    op_index: idx,
+                    kind: op.kind,
+                    detail: format!(
+                        "to_file returned Ok but the file is {} compared with the in-memory rendering made right after the call ; target={} pre={} delivered={:?}",
+                        rep.file,
+                        op.target.class(),
+                        op.pre.class(),
+                        delivered.log
+                    ),
+                });
+            }
+        }
+        Ok(Err(e)) => {
+            rep.result = format!("Err({})", crate::rng::head(e, 120));
+            stats.result_err += 1;
+            stats.bump("note:err_without_hard_fault", 1);
+        }
+    }
+    stats.syscalls += (delivered.opens + delivered.writes + delivered.closes + delivered.fsyncs + delivered.metas) as u64;
+    stats.bytes_written += delivered.bytes_accepted;
     rep.delivered = delivered;
     rep
 }
